@@ -101,7 +101,11 @@ fn st_a(cell: usize) -> StructA {
 
 /// canonical message of a kind; `cell` feeds the drop tracker
 fn make(kind: &str, cell: usize) -> Message {
-    let m = Message::default().id(cell as u16);
+    fill(Message::default().id(cell as u16), kind, cell)
+}
+
+/// stores the canonical value of `kind` in `m` (replacing whatever body it had)
+fn fill(m: Message, kind: &str, cell: usize) -> Message {
     match kind {
         "u32a" => m.with_content(0xDEAD_BEEFu32),
         "i32a" => m.with_content(-7i32),
@@ -268,6 +272,23 @@ fn replay_one(beh: &[Value]) -> Result<u64, Value> {
                 cell_of[h] = cell;
                 checks += 1;
             }
+            "replace" => {
+                let cell = kinds.len();
+                let kind = e["kind"].as_str().unwrap();
+                kinds.push(kind.to_string());
+                let old = hold[h].take().unwrap();
+                let id_before = old.header().id;
+                let Ok(m) = catch_unwind(AssertUnwindSafe(|| fill(old, kind, cell))) else { return Err(fail(i, "replacing the body panicked", "ok", "panic")) };
+                if m.length() as u64 != e["len"].as_u64().unwrap() {
+                    return Err(fail(i, &format!("length of a message whose body was replaced by kind {kind}"), &e["len"], m.length()));
+                }
+                if m.header().id != id_before {
+                    return Err(fail(i, "header id after replacing the body", id_before, m.header().id));
+                }
+                hold[h] = Some(m);
+                cell_of[h] = cell;
+                checks += 2;
+            }
             "new_empty" => {
                 let m = Message::default();
                 if m.length() != 64 {
@@ -287,6 +308,9 @@ fn replay_one(beh: &[Value]) -> Result<u64, Value> {
                     (Some(m), "some") => {
                         if m.length() as u64 != e["len"].as_u64().unwrap() {
                             return Err(fail(i, "length of a cloned message", &e["len"], m.length()));
+                        }
+                        if m.header().id != src.header().id || m.header().kind != src.header().kind {
+                            return Err(fail(i, "header of a cloned message", src.header().id, m.header().id));
                         }
                         if cell_of[h] != 0 {
                             kinds.push(kinds[cell_of[h]].clone());
